@@ -24,7 +24,7 @@ CHECKS = {
          "DESIGN.md §3 C02"),
  "C19": ("exploration",
          "bounded-exhaustive input enumeration on the real BeginBlocker + query, exact rational oracle",
-         "Full product of minter configurations x initial supply {1,1e6,1e12+7,1e30} x millisecond-aligned instants (before start, first/later step, last ms of a period, exactly at the hand-over, after it, no-minting) reached directly or through an earlier block; the reported inflation (Inflation query and Mint event) in the state left by the real minter BeginBlocker must equal annualised-rate/supply within the derived fixed-point bound, be zero when nothing is emitted, and the amount minted over 1ms/1s/1h inside one step must be within one base unit of rate*interval/year. Open-ended exponential periods are also read 64.5, 65.5 and 150.5 steps in.",
+         "Full product of minter configurations x initial supply {0 (crash-freedom and event == query only),1,1e6,1e12+7,1e30} x millisecond-aligned instants (before start, first/later step, last ms of a period, exactly at the hand-over, after it, no-minting) reached directly or through an earlier block; the reported inflation (Inflation query and Mint event) in the state left by the real minter BeginBlocker must equal annualised-rate/supply within the derived fixed-point bound, be zero when nothing is emitted, and the amount minted over 1ms/1s/1h inside one step must be within one base unit of rate*interval/year. Open-ended exponential periods are also read 64.5, 65.5 and 150.5 steps in.",
          "Inflation is only evaluated in keeper-reachable states; step durations 10 s and 4 years; tolerance derived from operation counts.",
          "DESIGN.md §3 C19"),
  "C03": ("model_checking",
@@ -39,7 +39,7 @@ CHECKS = {
          "DESIGN.md §3 C04"),
  "C07": ("exploration",
          "bounded-exhaustive input enumeration on the real message handlers",
-         "Dense sweep (every original vesting 1..60 quick / 1..250 thorough x every split amount 1..OV x 4 durations x elapsed grid incl. not-yet-started), structured families (two denominations, delegated vesting through the real staking keeper, move and move-by-denoms for every denom subset, chains of two splits from sender or recipient) and boundary families at 1e18..1e30 with amounts placed on every rounding edge of amount*OV/V (modular inverse construction). Each case: accepted iff amount <= locked; sender's locked drops by exactly the amount per denom, spendable unchanged; recipient is a new continuous vesting account with original vesting = amount, same end, start = max(now,start); at 4 later instants the still-vesting coins of all accounts together equal the sender's alone within 4 units per split (+ the SDK's own ratio rounding above 1e18).",
+         "Dense sweep (every original vesting 1..60 quick / 1..250 thorough x every split amount 1..OV x 4 durations x elapsed grid incl. not-yet-started), structured families (two denominations, delegated vesting through the real staking keeper - also delegated 90 days earlier, above the original vesting, and partly undelegated again with the unbonding completed -, move and move-by-denoms for every denom subset, chains of two splits from sender or recipient) and boundary families at 1e18..1e30 with amounts placed on every rounding edge of amount*OV/V (modular inverse construction). Each case: accepted iff amount <= locked; sender's locked drops by exactly the amount per denom, spendable unchanged; recipient is a new continuous vesting account with original vesting = amount, same end, start = max(now,start); at 4 later instants the still-vesting coins of all accounts together equal the sender's alone within 4 units per split (+ the SDK's own ratio rounding above 1e18).",
          "Message level on store branches; later-time comparison uses still-vesting coins (with delegations LockedCoins subtracts delegated vesting per account, which no split can preserve).",
          "DESIGN.md §3 C07"),
  "C08": ("exploration",
@@ -59,27 +59,27 @@ CHECKS = {
          "DESIGN.md §3 C14"),
  "C17": ("model_checking",
          "explicit-state BFS over real-store branches + ABCI conformance replay",
-         "Every history of <= 5 (quick) / 6 (thorough) events over sends from a genesis and a non-genesis pool, split / move / move-by-denoms from every vesting account created so far (genesis, traced non-genesis, untraced, and the fresh ones), delegations from vesting accounts and block steps of 1/20/40 s; in every state the set of recorded accounts and their genesis-derived flag must equal a lineage model, and both summary queries must equal recomputation from bank and account state. The owner's pools are [genesis, ordinary, genesis].",
+         "Every history of <= 5 (quick) / 6 (thorough) events over sends from a genesis and a non-genesis pool, split / move / move-by-denoms from every vesting account created so far (genesis, traced non-genesis, untraced, and the fresh ones), delegations and undelegations (unbonding time 30 s, completing inside the trace) from vesting accounts and block steps of 1/20/40 s; in every state the set of recorded accounts and their genesis-derived flag must equal a lineage model, and both summary queries must equal recomputation from bank and account state. The owner's pools are [genesis, ordinary, genesis].",
          "Amounts fixed (send 8, split 2); one validator.",
          "DESIGN.md §3 C17"),
  "C18": ("model_checking",
          "exhaustive exploration (cadence trees, configuration x inflow histories, BFS) with event decoding",
-         "Mint: 700 three-period configurations x every cadence of a 6/8-point grid through the real minter BeginBlocker, event amount == supply delta. Distribution: the complete C03 configuration x history space, per sub-distributor the Distribution + DistributionBurn events must add up to its inflow (from the flow model validated by C04). Withdraw: the C06 exploration (one owner, three pools maturing at different times), every withdrawal and pool send must emit exactly one WithdrawAvailable per paying pool carrying that pool's amount.",
+         "Mint: 700 three-period and 64 four-period configurations x every cadence of a 6/8-point grid through the real minter BeginBlocker, event amount == supply delta. Distribution: the complete C03 configuration x history space, per sub-distributor the Distribution + DistributionBurn events must add up to its inflow (from the flow model validated by C04). Withdraw: the C06 exploration (one owner, three pools maturing at different times), every withdrawal and pool send must emit exactly one WithdrawAvailable per paying pool carrying that pool's amount.",
          "Typed events decoded with sdk.ParseTypedEvent.",
          "DESIGN.md §3 C18"),
  "C01": ("model_checking",
          "explicit-state BFS over the full application on real-store branches + ABCI conformance replay",
-         "Every history of <= 5 (quick) / 6 (thorough) events over block steps (1 s, 7 s, jump past the period end), all vesting messages valid and rejected, signature messages, a fee-paying transaction and governance updates of minter and burn share, on the full application (all modules' Begin/EndBlockers in real order). Every state: supply == sum of all balances for every denom. Every block: supply delta == bank-minted - bank-burned, only the minter module mints (its own denom, exactly the amount it reports, equal to the exact-rational schedule while governance has not replaced it) and only the distributor burns, exactly what its burn books say. Every message: supply unchanged and only signer / vesting module / recipient / fee collector balances move.",
+         "Every history of <= 5 (quick) / 6 (thorough) events over block steps (1 s, 7 s, jump past the period end), all vesting messages valid and rejected, signature messages, a fee-paying transaction in the first and in a second denomination and governance updates of minter and burn share, on the full application (all modules' Begin/EndBlockers in real order). Every state: supply == sum of all balances for every denom. Every block: supply delta == bank-minted - bank-burned, only the minter module mints (its own denom, exactly the amount it reports, equal to the exact-rational schedule while governance has not replaced it) and only the distributor burns, exactly what its burn books say. Every message: supply unchanged and only signer / vesting module / recipient / fee collector balances move.",
          "One configuration per scenario (linear then exponential period, burn share 0.1, fractional shares); SDK modules trusted.",
          "DESIGN.md §3 C01"),
  "C10": ("model_checking",
          "explicit-state BFS over the full application on real-store branches + ABCI conformance replay",
-         "Every history of <= 4 (quick) / 5 (thorough) events over block steps (1 ms .. jump over two periods), 12 governance minter updates (start moved past/future, current period end moved before/after now, periods dropped/added around the current id, ids not starting at 1, amount 1e35, denominations incl. invalid ones), 6 governance distributor updates (persistently failing locked source and blocked destination, share to MAIN, burn 0.99, partial updates), a fee-paying transaction and a module-level genesis export->import restart; begin/end-block processing of all modules must never panic.",
+         "Every history of <= 4 (quick) / 5 (thorough) events over block steps (1 ms .. jump over two periods), 14 governance minter updates (a fresh denomination under an open-ended exponential period, dropping the periods that have ended, start moved past/future, current period end moved before/after now, periods dropped/added around the current id, ids not starting at 1, amount 1e35, denominations incl. invalid ones), 6 governance distributor updates (persistently failing locked source and blocked destination, share to MAIN, burn 0.99, partial updates), a fee-paying transaction and a module-level genesis export->import restart; begin/end-block processing of all modules must never panic.",
          "Updates are filtered by the real validation; restart on branches uses the modules' exported Init/ExportGenesis (the ABCI form is decided under C12).",
          "DESIGN.md §3 C10"),
  "C13": ("model_checking",
          "explicit-state BFS over the full application on real-store branches + ABCI conformance replay",
-         "Every sequence of <= 4 (quick) / 5 (thorough) events over the 7 parameter-update message types x authority {gov, user, empty, garbage} x 33 payloads (valid, invalid, partially valid: share pushing the sum to 1, burn share 1, replacement breaking the MAIN ordering rule, minters missing the current id, unordered, gap, linear last, denom changes) interleaved with blocks that move the minter to the next period and a create-pool message. Every state: stored parameters of all three modules validate and contain the minter's current period. Every transition: non-gov authority is rejected, a rejected update leaves all parameter bytes unchanged, an accepted one stores exactly the requested value, the vesting denom never changes while pools exist, no other message changes parameters. Withdraw / send-all events empty the pool without removing its record; three proposals whose second message fails must leave no trace; every authority payload is also run through a real governance proposal (submit, vote, EndBlocker) and must agree with the shortcut.",
+         "Every sequence of <= 4 (quick) / 5 (thorough) events over the 7 parameter-update message types x authority {gov, user, empty, garbage} x 35 payloads (valid, invalid, partially valid: share pushing the sum to 1, burn share 1, replacement breaking the MAIN ordering rule, minters missing the current id, unordered, gap, linear last, denom changes) interleaved with blocks that move the minter to the next period and a create-pool message. Every state: stored parameters of all three modules validate and contain the minter's current period. Every transition: non-gov authority is rejected, a rejected update leaves all parameter bytes unchanged, an accepted one stores exactly the requested value, the vesting denom never changes while pools exist, no other message changes parameters. Withdraw / send-all events empty the pool without removing its record; three proposals whose second message fails must leave no trace; every authority payload is also run through a real governance proposal (submit, vote, EndBlocker) and must agree with the shortcut.",
          "Authority messages are executed the way x/gov executes them (router handler on a cache branch).",
          "DESIGN.md §3 C13"),
  "C15": ("model_checking",
@@ -104,7 +104,7 @@ CHECKS = {
          "DESIGN.md §3 C12"),
  "C16": ("exploration",
          "bounded-exhaustive enumeration of pre-upgrade stores in the previous format, whole upgrade handler executed",
-         "Product alphabet of pre-upgrade states written in the previous store format (v2 pools and traces under the old prefixes, legacy x/params subspaces, module versions 2): pool layouts of the hard-coded owner (subsets and orders of Validators / Advisors / other pool; currently locked in {0, sum-1, sum, sum+1, 2*sum}; with and without sent/withdrawn history), a second owner's pool of the removed type, vesting type present/absent, the four hard-coded accounts in 5 kinds, 6 legacy minter and 4 legacy distributor parameter sets (344 cases quick, ~2 400 thorough); each case runs the whole registered v1.2.0 handler through UpgradeKeeper.ApplyUpgrade. Total locked and module balance unchanged, every pool's sent/withdrawn unchanged, solvency and registered invariants, split all-or-nothing, shifted accounts keep amounts, other accounts byte-identical, traces preserved, migrated minter parameters validate and give the same exact-rational schedule on a time grid, distributor parameters byte-equal. Owner sets include pools already named like the pools the split creates (matched as a multiset).",
+         "Product alphabet of pre-upgrade states written in the previous store format (v2 pools and traces under the old prefixes, legacy x/params subspaces, module versions 2): pool layouts of the hard-coded owner (subsets and orders of Validators / Advisors / other pool; currently locked in {0, sum-1, sum, sum+1, 2*sum}; with and without sent/withdrawn history), a second owner's pool of the removed type, vesting type present/absent, the four hard-coded accounts in 5 kinds, 8 legacy minter (two with periods that ended before the upgrade) and 4 legacy distributor parameter sets (344 cases quick, ~2 400 thorough); each case runs the whole registered v1.2.0 handler through UpgradeKeeper.ApplyUpgrade. Total locked and module balance unchanged, every pool's sent/withdrawn unchanged, solvency and registered invariants, split all-or-nothing, shifted accounts keep amounts, other accounts byte-identical, traces preserved, migrated minter parameters validate and give the same exact-rational schedule on a time grid, distributor parameters byte-equal. Owner sets include pools already named like the pools the split creates (matched as a multiset).",
          "In-process on a store branch of an application whose genesis has no ICA state.",
          "DESIGN.md §3 C16"),
 }
